@@ -65,6 +65,10 @@ Fixpoint sampled (sh : shape) (i : Z) (evs : list event) : list Z :=
   | _ :: r => sampled sh i r
   end.
 
+(* the input is not driven during evs *)
+Definition input_held (evs : list event) : bool :=
+  forallb (fun e => match e with Ein _ => false | _ => true end) evs.
+
 (* ------------------------------------------------------------------ AsyncFFSynchronizer / ResetSynchronizer *)
 (* A private domain `async_ff` (async_reset=True) whose clock is the output-domain clock; `stages`
    1-bit flops with init 1, the first one loads the constant 0; reset = i (async_edge="pos") or ~i.
@@ -99,6 +103,9 @@ Definition af_out (s : af_state) : bool := last (af_flops s) false.
 Definition af_run (pos : bool) (stages : nat) (i0 : Z) (evs : list event) : af_state :=
   fold_left (af_step pos) evs (af_start stages i0).
 
+(* ResetSynchronizer(arst, domain, stages): async_edge = "pos", the output is ResetSignal(domain) *)
+Definition rs_run (stages : nat) (i0 : Z) (evs : list event) : af_state := af_run true stages i0 evs.
+
 (* specification vocabulary *)
 Fixpoint af_input_after (i : bool) (evs : list event) : bool :=
   match evs with
@@ -113,6 +120,15 @@ Fixpoint af_stays_released (pos : bool) (evs : list event) : bool :=
   | [] => true
   | Ein v :: r => negb (af_rst pos (Z.odd v)) && af_stays_released pos r
   | _ :: r => af_stays_released pos r
+  end.
+
+(* number of output edges since the input was last asserted (c = the count so far); 0 while asserted *)
+Fixpoint rel_edges (pos : bool) (i : bool) (c : nat) (evs : list event) : nat :=
+  match evs with
+  | [] => c
+  | Ein v :: r => rel_edges pos (Z.odd v) (if af_rst pos (Z.odd v) then O else c) r
+  | Eo :: r | Eb :: r => rel_edges pos i (if af_rst pos i then O else S c) r
+  | _ :: r => rel_edges pos i c r
   end.
 
 (* ------------------------------------------------------------------ PulseSynchronizer *)
@@ -186,6 +202,32 @@ Fixpoint toggle_after (i t : bool) (evs : list event) : bool :=
   | Ei :: r | Eb :: r => toggle_after i (xorb t i) r
   | _ :: r => toggle_after i t r
   end.
+
+(* the values of i_toggle seen by the output edges *)
+Fixpoint tsampled (i t : bool) (evs : list event) : list bool :=
+  match evs with
+  | [] => []
+  | Ein v :: r => tsampled (Z.odd v) t r
+  | Eo :: r => t :: tsampled i t r
+  | Ei :: r => tsampled i (xorb t i) r
+  | Eb :: r => t :: tsampled i (xorb t i) r
+  | Enop :: r => tsampled i t r
+  end.
+
+(* the number of input pulses in each interval between output edges: element j (0-based) counts the
+   pulses after output edge j (after the start for j = 0) and before output edge j + 1; c = pulses
+   counted so far in the current interval.  The pulse of an Eb belongs to the interval that follows. *)
+Fixpoint pulse_slots (i : bool) (c : nat) (evs : list event) : list nat :=
+  match evs with
+  | [] => []
+  | Ein v :: r => pulse_slots (Z.odd v) c r
+  | Eo :: r => c :: pulse_slots i O r
+  | Ei :: r => pulse_slots i (if i then S c else c) r
+  | Eb :: r => c :: pulse_slots i (if i then 1%nat else O) r
+  | Enop :: r => pulse_slots i c r
+  end.
+(* pulses in the interval that ends at output edge j (1-based); nothing before the first edge *)
+Definition slot_at (sl : list nat) (j : nat) : nat := match j with O => O | S j' => nth j' sl O end.
 
 (* ------------------------------------------------------------------ constructor checks *)
 (* _check_stages: 0 = accepted, 1 = TypeError (stages < 1), 2 = ValueError (stages < 2) *)
